@@ -206,12 +206,15 @@ def subclasses():
     class SubB(chameleon.PageTemplate):
         expression_types = dict(chameleon.PageTemplate.expression_types,
                                 python=StringExpr)
-    return {"SubA": SubA, "SubB": SubB}
+    class A(chameleon.PageTemplate):
+        """(body + "Sub") + "A" reads like body + "SubA")"""
+
+    return {"SubA": SubA, "SubB": SubB, "A": A}
 
 
 def make_template(job):
     import chameleon
-    if job["cls"] in ("SubA", "SubB"):
+    if job["cls"] in ("SubA", "SubB", "A"):
         cls = subclasses()[job["cls"]]
     else:
         cls = getattr(chameleon, job["cls"])
@@ -252,10 +255,53 @@ def listing(cache):
     return sorted(out)
 
 
+def run_thread_schedules(spec):
+    """Two threads of THIS process construct and render the same template
+    (same cache entry) under harness-owned schedules: every line of
+    ModuleLoader.get / build / _load and BaseTemplate._cook is a yield
+    point.  Every schedule uses a body of its own (a fresh entry)."""
+    from chameleon.loader import ModuleLoader
+    from chameleon.template import BaseTemplate
+    from vlib.sched import Blocked, Scheduler
+    fns = [ModuleLoader.get, ModuleLoader.build, ModuleLoader._load,
+           BaseTemplate._cook]
+    out = []
+    for k, schedule in spec["schedules"]:
+        job = dict(spec["jobs"][0])
+        marker = "<!-- entry %s -->" % k
+        job["body"] = job["body"] + marker
+        sched = Scheduler(fns, step_timeout=20.0, block_timeout=0.15)
+        try:
+            workers, trace = sched.run(
+                [lambda: run_job(job) for _ in range(spec.get("threads", 2))],
+                schedule)
+        except Blocked as e:
+            out.append({"k": k, "blocked": str(e)})
+            continue
+        res = []
+        for w in workers:
+            if w.exc is not None:
+                res.append({"exc": type(w.exc).__name__,
+                            "msg": str(w.exc)[:200]})
+            else:
+                res.append(w.result)
+        out.append({"k": k, "results": res, "marker": marker,
+                    "steps": [w.steps for w in workers]})
+    return out
+
+
 def main():
     with open(sys.argv[1]) as f:
         spec = json.load(f)
     cache = os.environ["CHAMELEON_CACHE"]
+    if spec.get("mode") == "sched":
+        import chameleon  # noqa: F401
+        from chameleon import config
+        assert config.CACHE_DIRECTORY == os.path.abspath(cache)
+        res = {"sched": run_thread_schedules(spec)}
+        sys.stdout.write("RESULT " + json.dumps(res) + "\n")
+        sys.stdout.flush()
+        os._exit(0)
     STATE["mode"] = spec.get("mode", "plain")
     STATE["crash_at"] = spec.get("crash_at")
     if STATE["mode"] != "plain":
